@@ -270,7 +270,10 @@ def live_readings(sw, k: str) -> Dict[str, str]:
             out["live"] = "<unset>" if v is None else tok(v)
         if k != "listen_on_ports":
             if k in type(sw.config).model_fields:
-                out["config"] = tok(getattr(sw.config, k))
+                cv = getattr(sw.config, k)
+                # an integer field that holds something that is not an integer (a quoted '4' stored as text) is not the declared 4
+                strict_int = type(sw.config).model_fields[k].annotation is int and not (isinstance(cv, int) and not isinstance(cv, bool))
+                out["config"] = ("<not-an-int>" + repr(cv)) if strict_int else tok(cv)
             if k in type(sw).model_fields:
                 out["attr"] = tok(getattr(sw, k))
     except Exception as e:  # a reader that raises is a difference, not a crash of the rig
@@ -396,6 +399,11 @@ def _rule_line(aclname: str, pos, r: Dict) -> str:
             f"{_ipt(dip)} {_ipt(r.get('dst_wildcard_mask'))} {sp} {dp}")
 
 
+def _dur(v) -> str:
+    """A duration key of the file as the schema reads it: absent -> '-', otherwise the integer the value means ('0', 0.0, False -> 0)."""
+    return "-" if v is None else str(int(v))
+
+
 def _state(v) -> str:
     if v is None or v == "":
         return "-"
@@ -433,7 +441,7 @@ def scenario_lines(cfg: Dict) -> List[str]:
     if set(d) - set(dkeys):
         raise Unmodelled(f"defaults keys {sorted(set(d) - set(dkeys))}")
     if d:
-        lines.append("defaults " + " ".join(_o(d.get(k)) for k in dkeys))
+        lines.append("defaults " + " ".join(_dur(d.get(k)) for k in dkeys))
     for n in net.get("nodes") or []:
         t = n["type"]
         if t not in MODELLED_NODE_TYPES:
@@ -446,8 +454,8 @@ def scenario_lines(cfg: Dict) -> List[str]:
         extra = set(n) - known
         if extra:
             raise Unmodelled(f"node keys {sorted(extra)}")
-        lines.append(f"node {t} {tok(n['hostname'])} {_state(n.get('operating_state'))} {_o(n.get('start_up_duration'))} "
-                     f"{_o(n.get('shut_down_duration'))} {_ipt(n.get('dns_server'))} {_ipt(n.get('default_gateway'))} "
+        lines.append(f"node {t} {tok(n['hostname'])} {_state(n.get('operating_state'))} {_dur(n.get('start_up_duration'))} "
+                     f"{_dur(n.get('shut_down_duration'))} {_ipt(n.get('dns_server'))} {_ipt(n.get('default_gateway'))} "
                      f"{_ipt(n.get('ip_address'))} {_ipt(n.get('subnet_mask'))} {_o(n.get('num_ports'))}")
         if "node_scan_duration" in n:
             lines.append(f"nodescan {int(n['node_scan_duration'])}")
@@ -505,7 +513,7 @@ def scenario_lines(cfg: Dict) -> List[str]:
                      f"{'-' if 'include_router' not in ns else (1 if ns['include_router'] else 0)} {_o(ns.get('bandwidth'))}")
     for l in net.get("links") or []:
         lines.append(f"link {tok(l['endpoint_a_hostname'])} {l['endpoint_a_port']} {tok(l['endpoint_b_hostname'])} {l['endpoint_b_port']} "
-                     f"{_o(l.get('bandwidth'))}")
+                     f"{_o(l.get('bandwidth') if not isinstance(l.get('bandwidth'), float) or l['bandwidth'] != int(l['bandwidth']) else int(l['bandwidth']))}")
     for a in cfg.get("agents") or []:
         lines.append(f"agent {tok(a['ref'])} {a['type']} {_o(a.get('team'))}")
         for i, e in ((a.get("action_space") or {}).get("action_map") or {}).items():
